@@ -46,6 +46,10 @@ def obligations(tier):
     obls.append(CH("granular_markings_deep_selectors", H, "deep_selectors", t, mode="E1s", functions=F + ["stix2.markings.utils.validate", "stix2.markings.utils._evaluate_expression",
                    "stix2.markings.utils.iterpath"], bounds="7 documents (12-element lists, 11 embedded objects, sibling dictionary keys that extend one another, nested "
                    "extensions, 2.0 observed-data members) x every JSON path of the document as the single selector, marking-ref and lang, alone and in a bundle"))
+    obls.append(CH("extension_entries_and_hash_vocabulary", H, "extension_entries_and_hashes", t, mode="E1s", functions=F + ["stix2.base._STIXBase.__init__",
+                   "stix2.v21.common.ExternalReference._check_object_constraints"],
+                   bounds="5 documents (SDO with unregistered toplevel + property extensions in either order, SCO with a registered extension next to them, artifact, "
+                          "external references, PE binary extension) x each of the 8 hash algorithms alone and all together, in every place that takes hashes x alone / in a bundle"))
     obls.append(CH("indicator_pattern_languages", H, "indicator_pattern_languages", t, mode="E1s", functions=F + ["stix2.v21.sdo.Indicator.__init__"],
                    bounds="6 pattern languages of the vocabulary x pattern_version given or not x alone / in a bundle: accepted, preserved, nothing added but the STIX pattern version"))
     obls.append(JOB("timestamp_texts_accepted", "props.j_time", "job_accepts", 600, functions=F[5:6], finding="C03-frac7",
